@@ -169,6 +169,11 @@ func (c *Ctx) execStmt(env *Env, s ast.Stmt, st *State) []*State {
 		return alive(st)
 	case *ast.GoStmt:
 		c.trust("go statements: spawned goroutine bodies are not part of the spawner's contract")
+		// the spawn itself is an event "go" of the call log, so that a contract can confine a
+		// function to its caller's goroutine (`atcall go: false`: this function starts none)
+		if !env.contract {
+			env.callHooksNamed("go", nil, nil, st, &ast.CallExpr{Fun: &ast.Ident{NamePos: x.Pos(), Name: "go"}, Lparen: x.Pos(), Rparen: x.End()})
+		}
 		return alive(st)
 	case *ast.EmptyStmt:
 		return alive(st)
